@@ -239,7 +239,7 @@ def io_send_cfg(msg, nmsgs, chunk, faults, retry, record, live=False):
     if live:
         txt += "PROPERTY Terminates\n"
     txt += "CHECK_DEADLOCK FALSE\n"
-    return {"type": "tlc-only" if not record else "tlc-replay", "module": "MCIoSend", "cfg": name, "cfg_text": txt}
+    return {"type": "tlc-only" if not record else "tlc-replay", "module": "MCIoSend", "cfg": name, "cfg_text": txt, "io_traces": record, "io_traces_limit": 300}
 
 def io_async_cfg(msg, nmsgs, pipecap, chunk, spur, record, live=False, cancel=0):
     name = "MCIoAsync_%s_n%d_p%d_c%d_s%d%s%s.cfg" % (msg, nmsgs, pipecap, chunk, spur, "_x%d" % cancel if cancel else "", "_live" if live else "")
